@@ -299,7 +299,7 @@ fn kernel_matrix(r: &mut Runner) {
             });
         };
     }
-    kinst!("f64/dense/gaussian", f64, KernelType::Dense, KernelMethod::Gaussian(2.0));
+    kinst!("f64/dense/gaussian", f64, KernelType::Dense, KernelMethod::Gaussian(2.0 + 0.1));
     kinst!("f64/sparse3/gaussian", f64, KernelType::Sparse(3), KernelMethod::Gaussian(2.0));
     kinst!("f64/dense/polynomial", f64, KernelType::Dense, KernelMethod::Polynomial(1.0, 2.0));
     kinst!("f32/dense/linear", f32, KernelType::Dense, KernelMethod::Linear);
